@@ -37,7 +37,7 @@ Definition exn_eqb (a b : exn) : bool :=
   match a, b with
   | EFault x, EFault y => fkind_eqb x y
   | ENoSource, ENoSource | EExists, EExists | EAssert, EAssert | EKey, EKey
-  | EUnbound, EUnbound | ENoNames, ENoNames => true
+  | EUnbound, EUnbound | ENoNames, ENoNames | EIsDir, EIsDir => true
   | ECallee n, ECallee m => Nat.eqb n m
   | _, _ => false
   end.
